@@ -8,8 +8,9 @@ from . import c13 as H13
 from . import accessors as HACC
 
 CHECKS = {
-    **{f"C03:numpy-{K}": (lambda K=K: H.chk_numpy(K, exclude_kids=("Count", "CountT", "CountTC") if K in ("UntypedLabel", "Branch") else ())) for K in H.CLASSES},
+    **{f"C03:numpy-{K}": (lambda K=K: H.chk_numpy(K, exclude_kids=("Count", "CountT", "CountTC", "CountSq") if K in ("UntypedLabel", "Branch") else ())) for K in H.CLASSES},
     "C03:numpy-UntypedLabel-count-first": lambda: H.chk_numpy("UntypedLabel", only_kids=("Count", "CountT", "CountTC")),
+    "C03:numpy-count-after-quantity": lambda: H.chk_numpy_count_after_quantity(),
     "C03:numpy-Branch-count-first": lambda: H.chk_numpy("Branch", only_kids=("Count", "CountT", "CountTC")),
     **{f"C03:edges-{K}": (lambda K=K: H.chk_numpy_edges(K)) for K in ("Bin", "SparselyBin", "CentrallyBin", "IrregularlyBin", "Stack")},
     **{f"C05:edges-{K}": (lambda K=K: H.chk_numpy_edges(K, sums=True)) for K in ("Bin", "SparselyBin", "CentrallyBin", "IrregularlyBin", "Stack")},
@@ -22,6 +23,8 @@ CHECKS = {
     "C04:Bag.json": lambda: H.chk_json("Bag", "reserialises-identically") or H.chk_json("Bag", "usable"),
     "C15:Bag.json": lambda: H.chk_c15("Bag"),
     "C04:Stack.build": lambda: H.chk_stack_build(),
+    "C04:numpy-dtypes": lambda: H.chk_numpy_dtypes(),
+    "C04:string-and-file": lambda: H.chk_json_string_and_file(),
     "C04:duplicate-edges": lambda: H.chk_json_duplicate_edges(),
     "C15:duplicate-edges": lambda: H.chk_json_duplicate_edges(),
     "C09:Bag.__eq__": lambda: H.chk_eq("Bag", "sound") or H.chk_eq("Bag", "complete") or H.chk_eq("Bag", "no-raise") or H.chk_eq("Bag", "sound", True) or H.chk_eq("Bag", "complete", True) or H.chk_eq("Bag", "no-raise", True),
@@ -31,6 +34,7 @@ CHECKS = {
     "C02:Bag.vector": lambda: H.chk_bag_vector("fill"),
     "C02:Stack.unsorted": lambda: H.chk_stack_unsorted(),
     "C12:rollback": lambda: next((m for K in H.CLASSES for m in [H.chk_rollback(K)] if m), None),
+    "C01:Stack.build": lambda: H.chk_stack_build_merge(),
     "C01:Bag.vector": lambda: H.chk_bag_vector("merge"),
     "C08:Bag.vector": lambda: H.chk_bag_vector("scale"),
     "C09:Bag.vector": lambda: H.chk_bag_vector("eq"),
